@@ -6,26 +6,29 @@ A *script* is a JSON-serialisable dict:
    "steps": [ {op...}, ... ], ...free-form metadata (key, oracle, expected...)}
 
 Step ops (radar):
-  {"op":"keys","hex":"1b5b31337e"}          one write() to the pty master
-  {"op":"sync","n":3}                        wait n further heartbeats (ESC[?25l)
-  {"op":"send","hex":"..."}                  one send() on the feed connection
-  {"op":"gap"}                               read-timeout gap: filler off, >= 3 further heartbeats
-  {"op":"lines","hex":"...","n":k}           send k complete valid lines and wait until they were consumed
+  {"op":"keys","hex":"1b5b31337e"}          one write() to the pty master; returns once the subject has read it (rchar)
+  {"op":"sync","n":2}                        wait for n heartbeats (ESC[?25l) *emitted after* the last injection (wchar mark)
+  {"op":"send","hex":"..."}                  one send() on the feed connection; returns once the subject's TCP acked it
+  {"op":"gap","n":k+2}                       read-timeout gap: pacing off, n heartbeats emitted after the segment landed
+  {"op":"lines","hex":"...","n":k}           send k complete valid lines and wait until they are provably consumed and drawn
   {"op":"resize","cols":c,"rows":r}          TIOCSWINSZ + SIGWINCH
-  {"op":"filler","on":true|false,"cycle":[hex lines]}   self-clocked pacing stream
-  {"op":"age","ms":1600}                     let wall time pass (>= ms, heartbeat-counted) - used for expiry
+  {"op":"filler","on":true|false,"cycle":[hex lines]}   pacing stream: 2..3 valid non-ES lines kept queued ahead of the subject
+  {"op":"age","ms":1600}                     let wall time pass (>= ms, then 2 fresh heartbeats) - used for expiry only
   {"op":"close"}                             server closes the connection
   {"op":"accept"}                            server accepts the (re)connection
-  {"op":"snap","name":"x"}                   record the screen at the latest heartbeat
+  {"op":"snap","name":"x"}                   record the screen as of the latest heartbeat (a complete frame)
   {"op":"quit","hex":"71"}                   write the quit key and wait for the process to exit
   {"op":"wait_exit"}                         wait for the process to exit on its own (disconnect)
+  {"op":"wait_exit_or_hb"}                   command-line scripts: exit (usage error / crash) or first draws (accepted)
 Step ops (1090):
-  send / gap (250 ms) / close / {"op":"expect","line":"<hex payload>","after":k}  wait until that echo (+k lines) appeared
+  send / gap (>= 250 ms and 3 more blocking recv()s of the subject) / close / settle /
+  {"op":"expect","line":"<hex payload>","after":k}  wait until that echo (+k lines) appeared on stdout
 
 Timeouts (default 5 s) while *establishing* a state raise Machinery; a subject that exits early or stops
 drawing is an observation (the oracle decides), never an exception.
 """
 
+import bisect
 import ctypes
 import errno
 import fcntl
@@ -132,6 +135,9 @@ class Radar:
         self.stream_off = 0      # bytes read from the pty so far
         self._scan_tail = b''
         self.hb_off = []         # exact stream offsets (end) of every heartbeat sequence read so far
+        self.line_marks = []     # one wchar mark per complete line sent on the feed connection (non-decreasing)
+        self.consumed_lb = 0     # lower bound of the number of those lines the subject has taken from the stream
+        self.marks_ok = True     # False once /proc/<pid>/io was unreadable (fallback to plain counting)
 
     # -- causal heartbeat accounting ----------------------------------------------------------
     # A heartbeat read from the pty may have been written by the subject *before* an injection (bytes still in the
@@ -174,6 +180,13 @@ class Radar:
         i = buf.find(HB_PAT)
         while i >= 0:
             self.hb_off.append(base + i + len(HB_PAT))
+            # The iteration that emitted this heartbeat started after the previous heartbeat was emitted; every line
+            # whose send had returned before that (mark < previous offset) was available to its read_line, which takes
+            # exactly one line when one is available.  So: one guaranteed consumption per heartbeat while such lines exist.
+            if len(self.hb_off) >= 2:
+                avail = bisect.bisect_left(self.line_marks, self.hb_off[-2]) - self.consumed_lb
+                if avail > 0:
+                    self.consumed_lb += 1
             i = buf.find(HB_PAT, i + 1)
         self.stream_off += len(data)
         self._scan_tail = buf[-(len(HB_PAT) - 1):]
@@ -251,8 +264,7 @@ class Radar:
             self.scr.feed(data)
             new = len(self.hb_off) - hb0
             if new and self.filler_on:
-                for _ in range(new):
-                    self._send_filler()
+                self._top_up(new)
         return data
 
     def pump(self, timeout):
@@ -301,18 +313,37 @@ class Radar:
             self.pump(min(left, 0.1))
         return 'ok'
 
+    def unconsumed_ub(self):
+        """upper bound of the complete lines sent that the subject has not yet taken from the stream"""
+        return len(self.line_marks) - self.consumed_lb
+
     def _send_filler(self):
         line = self.filler_cycle[self.filler_i % len(self.filler_cycle)]
         self.filler_i += 1
         self.send(line)
+
+    def _top_up(self, new_heartbeats):
+        # pacing stream: keep 2..3 lines queued ahead of the subject, never more (bounded by the causal estimate);
+        # without /proc marks fall back to one line per heartbeat
+        if not self.marks_ok:
+            for _ in range(new_heartbeats):
+                self._send_filler()
+            return
+        n = 0
+        while self.filler_on and self.unconsumed_ub() < 3 and n < 3 and not self.conn_broken and self.conn is not None:
+            self._send_filler()
+            n += 1
 
     def set_filler(self, on, cycle=None):
         if cycle is not None:
             self.filler_cycle = [bytes(c) for c in cycle] or [FILLER]
         if on and not self.filler_on:
             self.filler_on = True
-            self._send_filler()
-            self._send_filler()
+            if self.marks_ok:
+                self._top_up(0)
+            else:
+                self._send_filler()
+                self._send_filler()
         elif not on:
             self.filler_on = False
 
@@ -321,10 +352,43 @@ class Radar:
             return False
         try:
             self.conn.sendall(data)
-            return True
+            # landed = acknowledged by the subject's TCP (in its receive queue): no unacknowledged bytes left
+            end = time.monotonic() + T_SYNC
+            buf = bytearray(4)
+            while True:
+                fcntl.ioctl(self.conn.fileno(), termios.TIOCOUTQ, buf)
+                if struct.unpack('i', buf)[0] == 0:
+                    break
+                if time.monotonic() > end:
+                    raise Machinery('feed bytes not acknowledged by the subject TCP within %.0f s' % T_SYNC)
+                time.sleep(0.0005)
         except OSError:
             self.conn_broken = True
             return False
+        k = data.count(b'\n')
+        if k:
+            m = self.wchar()
+            if m is None:
+                self.marks_ok = False
+                m = self.line_marks[-1] if self.line_marks else 0
+            if self.line_marks and m < self.line_marks[-1]:
+                m = self.line_marks[-1]
+            self.line_marks.extend([m] * k)
+        return True
+
+    def wait_consumed(self, target, timeout=None):
+        """wait until the first `target` lines sent are provably consumed and drawn -> 'ok' | 'exited' | 'timeout'"""
+        timeout = T_SYNC if timeout is None else timeout
+        end = time.monotonic() + timeout
+        while self.consumed_lb < target:
+            if self.exited():
+                self.drain()
+                return 'exited'
+            left = end - time.monotonic()
+            if left <= 0:
+                return 'timeout'
+            self.pump(min(left, 0.1))
+        return 'ok'
 
     def accept(self, timeout=None):
         timeout = T_SYNC if timeout is None else timeout
@@ -363,13 +427,45 @@ class Radar:
             self.conn.close()
             self.conn = None
 
-    def keys(self, data):
+    def _proc_io(self, field):
+        try:
+            with open('/proc/%d/io' % self.proc.pid) as f:
+                for ln in f:
+                    if ln.startswith(field):
+                        return int(ln.split()[1])
+        except (OSError, ValueError):
+            pass
+        return None
+
+    def keys(self, data, wait_read=True, timeout=None):
+        """one write() to the pty master.  Terminal input travels through a kernel work queue, so the write returning
+        does not mean the subject can see the bytes.  /proc/<pid>/io:rchar counts what the subject read(2)s (the tty,
+        not the socket, which it recv()s): once it grew by len(data) the subject has taken the whole batch, and it
+        handles everything it parsed before its next draw.  The output mark is taken after that.
+        -> 'ok' | 'exited' | 'timeout' (the subject does not read its terminal: frozen)"""
+        timeout = T_SYNC if timeout is None else timeout
         self._begin_inject()
+        r0 = self._proc_io('rchar:') if wait_read else None
         try:
             os.write(self.master, data)
         except OSError:
             pass
+        res = 'ok'
+        if r0 is not None:
+            end = time.monotonic() + timeout
+            while True:
+                if self.exited():
+                    res = 'exited'
+                    break
+                r = self._proc_io('rchar:')
+                if r is None or r >= r0 + len(data):
+                    break
+                if time.monotonic() > end:
+                    res = 'timeout'
+                    break
+                self.pump(0.002)
         self._end_inject()
+        return res
 
     def inject_send(self, data):
         self._begin_inject()
@@ -459,7 +555,11 @@ def run_radar(script):
                 break
             op = st['op']
             if op == 'keys':
-                rd.keys(bytes.fromhex(st['hex']))
+                w = rd.keys(bytes.fromhex(st['hex']))
+                if w == 'timeout':
+                    obs['frozen_at'] = i
+                    obs['notes'].append('input-not-read@%d hb=%d t=%.2f' % (i, len(rd.hb_off), time.monotonic() - t0))
+                    break
             elif op == 'sync':
                 w = rd.wait_hb(max(HB_FRESH, st.get('n', HB_FRESH)))
                 if w == 'timeout':
@@ -483,7 +583,11 @@ def run_radar(script):
                     break
             elif op == 'lines':
                 rd.inject_send(bytes.fromhex(st['hex']))
-                w = rd.wait_hb(st['n'] + 3)    # <= 2 pacing lines queued ahead + 1 draw in progress
+                if rd.marks_ok:
+                    w = rd.wait_consumed(len(rd.line_marks))
+                    rd.mark = None
+                else:
+                    w = rd.wait_hb(st['n'] + 5)
                 if w == 'timeout':
                     obs['frozen_at'] = i
                     obs['notes'].append('timeout@%d op=%s hb=%d t=%.2f' % (i, op, len(rd.hb_off), time.monotonic() - t0))
@@ -530,7 +634,7 @@ def run_radar(script):
             elif op == 'quit':
                 rd.set_filler(False)
                 obs['quit_sent'] = True
-                rd.keys(bytes.fromhex(st['hex']))
+                rd.keys(bytes.fromhex(st['hex']), wait_read=False)
                 w = rd.wait_exit()
                 if w == 'timeout':
                     obs['notes'].append('no-exit-after-quit')
@@ -785,40 +889,10 @@ def run_1090(script):
     return obs
 
 
-def run_cli(script):
-    """radar started with an (invalid) command line, no tty, no server: exit status + stderr."""
-    tmp = tempfile.mkdtemp(prefix='e4c_', dir=SCRATCH)
-    obs = {'binary': 'radar-cli'}
-    t0 = time.monotonic()
-    try:
-        p = subprocess.Popen([os.path.join(BIN_DIR, script.get('bin', 'radar'))] + script['argv'],
-                             stdin=subprocess.DEVNULL, stdout=subprocess.PIPE, stderr=subprocess.PIPE,
-                             cwd=tmp, env=_env(tmp), preexec_fn=_pdeathsig, close_fds=True)
-        try:
-            out, err = p.communicate(timeout=T_SYNC)
-            obs['exit_code'] = p.returncode
-            obs['timeout'] = False
-        except subprocess.TimeoutExpired:
-            p.kill()
-            out, err = p.communicate()
-            obs['exit_code'] = None
-            obs['timeout'] = True
-        obs['stderr_head'] = err[:400].decode('utf-8', 'replace')
-        obs['stdout_head'] = out[:200].decode('utf-8', 'replace')
-        obs['panic'] = find_panic(err + out)
-        obs['has_error_line'] = bool(re.search(rb'(?m)^error:', err))
-    finally:
-        shutil.rmtree(tmp, ignore_errors=True)
-    obs['wall_s'] = round(time.monotonic() - t0, 3)
-    return obs
-
-
 def run_script(script):
     b = script['binary']
     if b == 'radar':
         return run_radar(script)
     if b == '1090':
         return run_1090(script)
-    if b == 'radar-cli':
-        return run_cli(script)
     raise Machinery('unknown binary %r' % b)
